@@ -447,3 +447,704 @@ Proof.
     + rewrite fs_get_add_same. apply sinsert_len_eq; auto.
     + rewrite fs_get_add_other; auto.
 Qed.
+
+Scheme Derives_min := Minimality for Derives Sort Prop
+  with DerivesL_min := Minimality for DerivesL Sort Prop.
+Combined Scheme Derives_DerivesL_mut from Derives_min, DerivesL_min.
+
+(* ================================================================================================ *)
+(* 6. symbols of a grammar, unfolding of the two phases                                               *)
+(* ================================================================================================ *)
+Definition allsyms (rs : list (sym * list alternative)) : list sym :=
+  concat (map (fun r => concat (snd r)) rs).
+
+Lemma In_allsyms rs x :
+  In x (allsyms rs) <-> exists left alts alt, In (left, alts) rs /\ In alt alts /\ In x alt.
+Proof.
+  unfold allsyms. rewrite in_concat. split.
+  - intros (l & Hl & Hx). apply in_map_iff in Hl. destruct Hl as ([left alts] & <- & Hr).
+    cbn [snd] in Hx. apply in_concat in Hx. destruct Hx as (alt & Ha & Hx). eauto 6.
+  - intros (left & alts & alt & H1 & H2 & H3). exists (concat alts). split.
+    + apply in_map_iff. exists (left, alts); auto.
+    + apply in_concat. eauto.
+Qed.
+
+Lemma count_alts_ge alts n0 :
+  (n0 + length (concat alts) <= fold_left (fun n (alt : alternative) => n + length alt + 1) alts n0)%nat.
+Proof.
+  revert n0. induction alts as [|a l IH]; intros n0; cbn [fold_left concat].
+  - cbn. lia.
+  - rewrite app_length. specialize (IH (n0 + length a + 1)%nat). lia.
+Qed.
+
+Lemma allsyms_cons r l : allsyms (r :: l) = concat (snd r) ++ allsyms l.
+Proof. reflexivity. Qed.
+
+Lemma count_rules_ge (rs : list (sym * list alternative)) n0 :
+  (n0 + length rs + length (allsyms rs) <=
+   fold_left (fun n (rule : sym * list alternative) =>
+                fold_left (fun n (alt : alternative) => n + length alt + 1) (snd rule) (n + 1)) rs n0)%nat.
+Proof.
+  revert n0. induction rs as [|r l IH]; intros n0; cbn [fold_left].
+  - cbn. lia.
+  - rewrite allsyms_cons, app_length. cbn [length].
+    pose proof (count_alts_ge (snd r) (n0 + 1)) as H1.
+    remember (fold_left (fun n (alt : alternative) => n + length alt + 1) (snd r) (n0 + 1))%nat as n1.
+    specialize (IH n1).
+    remember (fold_left _ l n1) as n2.
+    lia.
+Qed.
+
+Lemma count_syms_ge rs : (2 + length rs + length (allsyms rs) <= count_syms rs)%nat.
+Proof. unfold count_syms. apply count_rules_ge. Qed.
+
+Definition p1_step (st : fstate) (s : sym) : fstate :=
+  match s with
+  | Tm i =>
+      let mx := N.max i (fs_max st) in
+      if fs_contains (fs_sets st) s then mkFS (fs_sets st) mx (fs_changed st)
+      else mkFS (ainsert sym_ltb (fs_sets st) s [s]) mx true
+  | Nt _ => mkFS (fs_touch (fs_sets st) s) (fs_max st) (fs_changed st)
+  | Eps => st
+  end.
+
+Definition p1_init (left : sym) (st : fstate) (alt : alternative) : fstate :=
+  match alt with
+  | [] =>
+      if negb (fs_contains (fs_sets st) left) then
+        mkFS (ainsert sym_ltb (fs_sets st) left [Eps]) (fs_max st) true
+      else if negb (smem sym_ltb (fs_get (fs_sets st) left) Eps) then
+        mkFS (fs_add (fs_sets st) left Eps) (fs_max st) true
+      else st
+  | _ => st
+  end.
+
+Lemma phase1_alt_eq left st alt : phase1_alt left st alt = fold_left p1_step alt (p1_init left st alt).
+Proof. reflexivity. Qed.
+
+Definition p1_rule (st : fstate) (rule : sym * list alternative) : fstate :=
+  fold_left (phase1_alt (fst rule)) (snd rule) st.
+
+Definition p2_rule (st : fstate) (rule : sym * list alternative) : fstate :=
+  fold_left (phase2_alt (fst rule)) (snd rule)
+            (mkFS (fs_touch (fs_sets st) (fst rule)) (fs_max st) (fs_changed st)).
+
+Lemma first_round_eq rs st : first_round rs st = fold_left p2_rule rs (fold_left p1_rule rs st).
+Proof. reflexivity. Qed.
+
+Lemma add_terminals_cons f left x from :
+  add_terminals f left (x :: from) = add_terminals (if is_tm x then fs_add f left x else f) left from.
+Proof. reflexivity. Qed.
+
+Lemma is_tm_true x : is_tm x = true <-> exists a, x = Tm a.
+Proof.
+  destruct x; cbn [is_tm]; split; try discriminate; eauto; intros [a H]; discriminate.
+Qed.
+
+(* state-level progress *)
+Definition progS (st st' : fstate) : Prop :=
+  prog (fs_sets st) (fs_changed st) (fs_sets st') (fs_changed st') /\ (fs_max st <= fs_max st')%N.
+
+Lemma progS_refl st : progS st st.
+Proof. split; [apply prog_refl|lia]. Qed.
+
+Lemma progS_trans a b c : progS a b -> progS b c -> progS a c.
+Proof. intros [A1 A2] [B1 B2]. split; [eapply prog_trans; eauto|lia]. Qed.
+
+Lemma fold_spec {A} (step : fstate -> A -> fstate) (I : fstate -> Prop) (Q : A -> Prop)
+      (Post : fstate -> A -> Prop) :
+  (forall st st' a, progS st st' -> Post st a -> Post st' a) ->
+  (forall st a, Q a -> I st -> I (step st a) /\ progS st (step st a) /\ Post (step st a) a) ->
+  forall l st, (forall a, In a l -> Q a) -> I st ->
+    I (fold_left step l st) /\ progS st (fold_left step l st) /\
+    (forall a, In a l -> Post (fold_left step l st) a).
+Proof.
+  intros Hmono Hstep. induction l as [|a l IH]; intros st HQ HI; cbn [fold_left].
+  - split; auto. split; [apply progS_refl|]. intros a [].
+  - destruct (Hstep st a) as (I1 & P1 & Po1); auto. { apply HQ; left; auto. }
+    destruct (IH (step st a)) as (I2 & P2 & Po2); auto. { intros b Hb; apply HQ; right; auto. }
+    split; auto. split. { eapply progS_trans; eauto. }
+    intros b [<-|Hb]; auto. eapply Hmono; eauto.
+Qed.
+
+(* closure of one alternative (suffix form, mirrors phase2_syms) *)
+Fixpoint closed_from (F : sym -> list sym) (left : sym) (rest : list sym) : Prop :=
+  match rest with
+  | [] => In Eps (F left)
+  | s :: rest' =>
+      (forall a, In (Tm a) (F s) -> In (Tm a) (F left)) /\
+      (In Eps (F s) -> closed_from F left rest')
+  end.
+
+Lemma closed_from_ext F F' left rest :
+  (forall k, F k = F' k) -> closed_from F left rest -> closed_from F' left rest.
+Proof.
+  intros HE. induction rest as [|s rest IH]; cbn [closed_from].
+  - rewrite <- HE. auto.
+  - intros [A B]. split.
+    + intros a. rewrite <- !HE. auto.
+    + rewrite <- HE. auto.
+Qed.
+
+(* ================================================================================================ *)
+(* 7. invariants of the loop, for a fixed well-formed grammar and a fixed reading P of             *)
+(*    "terminal a may begin what X derives"                                                        *)
+(* ================================================================================================ *)
+Section Fix.
+  Variable g : grammar.
+  Hypothesis WF : wf_grammar g.
+  Notation rs := (right_sides g).
+  Notation U := (allsyms (right_sides g)).
+
+  Variable P : sym -> N -> Prop.
+  Hypothesis P_tm : forall a, P (Tm a) a.
+  Hypothesis P_rule : forall left alts pre s post a,
+      In (left, alts) rs -> In (pre ++ s :: post) alts ->
+      (forall y, In y pre -> Derives g y []) -> P s a -> P left a.
+
+  Lemma rs_get_In left alts : In (left, alts) rs -> rs_get g left = alts.
+  Proof.
+    intros H. unfold rs_get.
+    rewrite (alookup_In_sorted _ _ _ (wf_sorted g WF) H). auto.
+  Qed.
+
+  Lemma rs_get_nth X k rhs :
+    nth_error (rs_get g X) k = Some rhs -> In (X, rs_get g X) rs /\ In rhs (rs_get g X).
+  Proof.
+    unfold rs_get. destruct (alookup sym_ltb rs X) eqn:E.
+    - intros H. apply alookup_In in E. split; auto. eapply nth_error_In; eauto.
+    - destruct k; discriminate.
+  Qed.
+
+  Lemma derives_alt left alts alt w :
+    In (left, alts) rs -> In alt alts -> DerivesL g alt w -> Derives g left w.
+  Proof.
+    intros H H0 H1. destruct (wf_keys_nt g WF _ _ H) as [n ->].
+    apply In_nth_error in H0. destruct H0 as [k Hk].
+    eapply D_nt; eauto. rewrite (rs_get_In _ _ H). eauto.
+  Qed.
+
+  Lemma derivesL_nil l : (forall y, In y l -> Derives g y []) -> DerivesL g l [].
+  Proof.
+    induction l as [|a l IH]; intros H.
+    - constructor.
+    - apply (DL_cons g a l [] []).
+      + apply H; left; auto.
+      + apply IH. intros y Hy. apply H; right; auto.
+  Qed.
+
+  Lemma left_not_tm left alts i : In (left, alts) rs -> left <> Tm i.
+  Proof. intros H E. destruct (wf_keys_nt g WF _ _ H) as [n Hn]. congruence. Qed.
+
+  Definition keyok (k : sym) : Prop := k = Eps \/ In k (map fst rs) \/ In k U.
+
+  Definition just (k x : sym) : Prop :=
+    (x = Eps /\ Derives g k []) \/ (exists a, x = Tm a /\ In (Tm a) U /\ P k a).
+
+  Record INV (f : fsets) : Prop := mkINV {
+    inv_sorted : StronglySorted slt (keys f);
+    inv_sets : forall k, StronglySorted slt (fs_get f k);
+    inv_mem : forall k x, In x (fs_get f k) -> x = Eps \/ exists a, x = Tm a /\ In (Tm a) U;
+    inv_keys : forall k, In k (keys f) -> keyok k;
+    inv_eps : forall k, In Eps (fs_get f k) -> Derives g k [];
+    inv_tm : forall k a, In (Tm a) (fs_get f k) -> P k a;
+    inv_J : forall i, In (Tm i) (keys f) -> In (Tm i) (fs_get f (Tm i))
+  }.
+
+  Lemma fs_get_init k : fs_get [(Eps, [])] k = [].
+  Proof. unfold fs_get. cbn [alookup]. destruct (keqb sym_ltb k Eps); auto. Qed.
+
+  Lemma INV_init : INV [(Eps, [])].
+  Proof.
+    constructor.
+    - cbn. constructor; constructor.
+    - intros k. rewrite fs_get_init. constructor.
+    - intros k x. rewrite fs_get_init. intros [].
+    - intros k. cbn. intros [<-|[]]. left; auto.
+    - intros k. rewrite fs_get_init. intros [].
+    - intros k a. rewrite fs_get_init. intros [].
+    - intros i. cbn. intros [H|[]]. discriminate.
+  Qed.
+
+  Lemma INV_touch f s :
+    INV f -> keyok s -> (forall i, s = Tm i -> In s (keys f)) -> INV (fs_touch f s).
+  Proof.
+    intros HI Hk HJ. constructor.
+    - apply sorted_touch, HI.
+    - intros k. rewrite fs_get_touch. apply HI.
+    - intros k x. rewrite fs_get_touch. apply HI.
+    - intros k Hin. apply keys_touch in Hin. destruct Hin as [->|Hin]; auto. apply HI; auto.
+    - intros k. rewrite fs_get_touch. apply HI.
+    - intros k a. rewrite fs_get_touch. apply HI.
+    - intros i Hin. rewrite fs_get_touch. apply HI.
+      apply keys_touch in Hin. destruct Hin as [E|Hin]; auto.
+      rewrite E. apply (HJ i). auto.
+  Qed.
+
+  Lemma INV_add f k x :
+    INV f -> keyok k -> just k x -> (forall i, k = Tm i -> x = Tm i \/ In k (keys f)) ->
+    INV (fs_add f k x).
+  Proof.
+    intros HI Hk Hj HJ. constructor.
+    - apply sorted_add, HI.
+    - intros k'. destruct (sym_eq_dec k k') as [<-|Hne].
+      + rewrite fs_get_add_same. apply sinsert_sorted, HI.
+      + rewrite fs_get_add_other; auto. apply HI.
+    - intros k' y. destruct (sym_eq_dec k k') as [<-|Hne].
+      + rewrite fs_get_add_same, In_sinsert. intros [->|Hy].
+        * destruct Hj as [[-> _]|(a & -> & Ha & _)]; eauto.
+        * eapply inv_mem; eauto.
+      + rewrite fs_get_add_other; auto. apply HI.
+    - intros k' Hin. apply keys_add in Hin. destruct Hin as [->|Hin]; auto. apply HI; auto.
+    - intros k'. destruct (sym_eq_dec k k') as [<-|Hne].
+      + rewrite fs_get_add_same, In_sinsert. intros [E|Hy].
+        * destruct Hj as [[_ Hd]|(a & -> & _)]; auto. discriminate.
+        * apply HI; auto.
+      + rewrite fs_get_add_other; auto. apply HI.
+    - intros k' a. destruct (sym_eq_dec k k') as [<-|Hne].
+      + rewrite fs_get_add_same, In_sinsert. intros [E|Hy].
+        * destruct Hj as [[-> _]|(a' & -> & _ & Hp)]; [discriminate|].
+          inversion E; subst; auto.
+        * eapply inv_tm; eauto.
+      + rewrite fs_get_add_other; auto. apply HI.
+    - intros i Hin. destruct (sym_eq_dec k (Tm i)) as [E|Hne].
+      + subst k. rewrite fs_get_add_same, In_sinsert.
+        destruct (HJ i eq_refl) as [->|Hin']; auto.
+        right. apply HI; auto.
+      + rewrite fs_get_add_other; auto. apply HI.
+        apply keys_add in Hin. destruct Hin as [E|Hin]; auto. congruence.
+  Qed.
+
+  Definition Bnd : nat := ((1 + length rs + length U) * (1 + length U))%nat.
+
+  Lemma INV_M_bound f : INV f -> (M f <= Bnd)%nat.
+  Proof.
+    intros HI. unfold Bnd.
+    assert (HB : (M f <= length f * (1 + length U))%nat).
+    { apply M_bound. intros k v Hin.
+      assert (Hv : fs_get f k = v).
+      { unfold fs_get. rewrite (alookup_In_sorted _ _ _ (inv_sorted f HI) Hin). auto. }
+      change (1 + length U)%nat with (length (Eps :: U)).
+      apply NoDup_incl_length.
+      - apply SS_NoDup. rewrite <- Hv. apply HI.
+      - intros x Hx. rewrite <- Hv in Hx. destruct (inv_mem f HI _ _ Hx) as [->|(a & -> & Ha)].
+        + left; auto.
+        + right; auto. }
+    assert (HL : (length f <= 1 + length rs + length U)%nat).
+    { rewrite <- (map_length fst f).
+      replace (1 + length rs + length U)%nat with (length (Eps :: map fst rs ++ U)).
+      2:{ cbn [length]. rewrite app_length, map_length. lia. }
+      apply NoDup_incl_length.
+      - apply SS_NoDup, HI.
+      - intros k Hk. destruct (inv_keys f HI _ Hk) as [->|[H|H]].
+        + left; auto.
+        + right. apply in_or_app; auto.
+        + right. apply in_or_app; auto. }
+    eapply Nat.le_trans; [exact HB|]. apply Nat.mul_le_mono_r. exact HL.
+  Qed.
+
+  (* ---------------------------------------------------------------------------------------------- *)
+  (* phase 1                                                                                         *)
+  (* ---------------------------------------------------------------------------------------------- *)
+  Definition MX (m : N) : Prop := m = 0%N \/ In (Tm m) U.
+  Definition I1 (st : fstate) : Prop := INV (fs_sets st) /\ MX (fs_max st).
+  Definition PostS (st : fstate) (s : sym) : Prop :=
+    forall i, s = Tm i -> In (Tm i) (fs_get (fs_sets st) (Tm i)) /\ (i <= fs_max st)%N.
+  Definition K1 (st : fstate) : Prop :=
+    forall i, In (Tm i) U -> In (Tm i) (fs_get (fs_sets st) (Tm i)) /\ (i <= fs_max st)%N.
+
+  Lemma PostS_mono st st' s : progS st st' -> PostS st s -> PostS st' s.
+  Proof.
+    intros [(Hincl & _) Hmax] H i E. destruct (H i E) as [H1 H2]. split.
+    - apply Hincl; auto.
+    - lia.
+  Qed.
+
+  Lemma K1_mono st st' : progS st st' -> K1 st -> K1 st'.
+  Proof.
+    intros [(Hincl & _) Hmax] H i E. destruct (H i E) as [H1 H2]. split.
+    - apply Hincl; auto.
+    - lia.
+  Qed.
+
+  Lemma p1_step_spec st s :
+    In s U -> I1 st -> I1 (p1_step st s) /\ progS st (p1_step st s) /\ PostS (p1_step st s) s.
+  Proof.
+    intros HU [HI HM]. destruct s as [|i|n]; cbn [p1_step].
+    - split; [split; auto|]. split; [apply progS_refl|]. intros i E; discriminate.
+    - destruct (fs_contains (fs_sets st) (Tm i)) eqn:E.
+      + split; [|split].
+        * split; cbn [fs_sets fs_max]; auto.
+          destruct (N.max_spec i (fs_max st)) as [[_ ->]|[_ ->]]; auto. right; auto.
+        * split; cbn [fs_sets fs_max fs_changed]; [apply prog_refl|]. apply N.le_max_r.
+        * intros j Ej. inversion Ej; subst j. cbn [fs_sets fs_max]. split.
+          -- apply HI. apply fs_contains_In; auto.
+          -- apply N.le_max_l.
+      + rewrite ainsert_single_is_add; auto. split; [|split].
+        * split; cbn [fs_sets fs_max].
+          -- apply INV_add; auto.
+             ++ right; right; auto.
+             ++ right. exists i. auto.
+          -- destruct (N.max_spec i (fs_max st)) as [[_ ->]|[_ ->]]; auto. right; auto.
+        * split; cbn [fs_sets fs_max fs_changed].
+          -- apply prog_add_new. apply HI. rewrite fs_contains_false_get; auto.
+          -- apply N.le_max_r.
+        * intros j Ej. inversion Ej; subst j. cbn [fs_sets fs_max]. split.
+          -- rewrite fs_get_add_same. apply In_sinsert; auto.
+          -- apply N.le_max_l.
+    - split; [|split].
+      + split; cbn [fs_sets fs_max]; auto. apply INV_touch; auto.
+        * right; right; auto.
+        * intros i E; discriminate.
+      + split; cbn [fs_sets fs_max fs_changed]; [|lia]. apply prog_touch, HI.
+      + intros i E; discriminate.
+  Qed.
+
+  Lemma p1_init_spec left alts alt st :
+    In (left, alts) rs -> In alt alts -> I1 st ->
+    I1 (p1_init left st alt) /\ progS st (p1_init left st alt).
+  Proof.
+    intros Hr Ha [HI HM]. destruct alt as [|s alt]; cbn [p1_init].
+    2:{ split; [split; auto|apply progS_refl]. }
+    assert (Hk : keyok left). { right; left. apply (in_map fst) in Hr. exact Hr. }
+    assert (Hj : just left Eps).
+    { left. split; auto. eapply derives_alt; eauto. constructor. }
+    destruct (fs_contains (fs_sets st) left) eqn:E; cbn [negb].
+    - destruct (smem sym_ltb (fs_get (fs_sets st) left) Eps) eqn:E2; cbn [negb].
+      + split; [split; auto|apply progS_refl].
+      + split.
+        * split; cbn [fs_sets fs_max]; auto. apply INV_add; auto.
+          intros i Ei. right. apply fs_contains_In; auto.
+        * split; cbn [fs_sets fs_max fs_changed]; [|lia].
+          apply prog_add_new. apply HI. apply smem_false; auto.
+    - rewrite ainsert_single_is_add; auto. split.
+      + split; cbn [fs_sets fs_max]; auto. apply INV_add; auto.
+        intros i Ei. exfalso. eapply left_not_tm; eauto.
+      + split; cbn [fs_sets fs_max fs_changed]; [|lia].
+        apply prog_add_new. apply HI. rewrite fs_contains_false_get; auto.
+  Qed.
+
+  Definition PostA (st : fstate) (alt : alternative) : Prop := forall s, In s alt -> PostS st s.
+  Definition PostR (st : fstate) (rule : sym * list alternative) : Prop :=
+    forall alt, In alt (snd rule) -> PostA st alt.
+
+  Lemma phase1_alt_spec left alts alt st :
+    In (left, alts) rs -> In alt alts -> I1 st ->
+    I1 (phase1_alt left st alt) /\ progS st (phase1_alt left st alt) /\
+    PostA (phase1_alt left st alt) alt.
+  Proof.
+    intros Hr Ha HI. rewrite phase1_alt_eq.
+    destruct (p1_init_spec left alts alt st Hr Ha HI) as [HI0 HP0].
+    destruct (fold_spec p1_step I1 (fun s => In s U) PostS PostS_mono p1_step_spec alt
+                        (p1_init left st alt)) as (A & B & C); auto.
+    { intros s Hs. apply In_allsyms. eauto 6. }
+    split; auto. split; auto. eapply progS_trans; eauto.
+  Qed.
+
+  Lemma p1_rule_spec st rule :
+    In rule rs -> I1 st -> I1 (p1_rule st rule) /\ progS st (p1_rule st rule) /\ PostR (p1_rule st rule) rule.
+  Proof.
+    intros Hr HI. destruct rule as [left alts]. unfold p1_rule, PostR. cbn [fst snd].
+    apply (fold_spec (phase1_alt left) I1 (fun alt => In alt alts) PostA); auto.
+    - intros s s' a Hp H x Hx. eapply PostS_mono; eauto.
+    - intros s a Ha Hs. eapply phase1_alt_spec; eauto.
+  Qed.
+
+  Lemma p1_all_spec st :
+    I1 st -> I1 (fold_left p1_rule rs st) /\ progS st (fold_left p1_rule rs st) /\
+             K1 (fold_left p1_rule rs st).
+  Proof.
+    intros HI.
+    destruct (fold_spec p1_rule I1 (fun r => In r rs) PostR) with (l := rs) (st := st)
+      as (A & B & C); auto.
+    - intros s s' a Hp H alt Halt x Hx. eapply PostS_mono; [exact Hp|]. apply (H alt Halt x Hx).
+    - intros s a Ha Hs. apply p1_rule_spec; auto.
+    - split; auto. split; auto.
+      intros i Hi. apply In_allsyms in Hi. destruct Hi as (left & alts & alt & H1 & H2 & H3).
+      apply (C (left, alts) H1 alt H2 (Tm i) H3 i eq_refl).
+  Qed.
+
+  (* ---------------------------------------------------------------------------------------------- *)
+  (* phase 2                                                                                         *)
+  (* ---------------------------------------------------------------------------------------------- *)
+  Lemma add_terminals_spec left from :
+    keyok left -> (forall i, left <> Tm i) ->
+    forall f, INV f -> (forall a, In (Tm a) from -> In (Tm a) U /\ P left a) ->
+      INV (add_terminals f left from) /\
+      (forall k, incl (fs_get f k) (fs_get (add_terminals f left from) k)) /\
+      (M (add_terminals f left from) + length (fs_get f left) =
+       M f + length (fs_get (add_terminals f left from) left))%nat /\
+      (length (fs_get f left) <= length (fs_get (add_terminals f left from) left))%nat /\
+      (length (fs_get (add_terminals f left from) left) = length (fs_get f left) ->
+       forall k, fs_get (add_terminals f left from) k = fs_get f k) /\
+      (forall x, In x from -> is_tm x = true -> In x (fs_get (add_terminals f left from) left)).
+  Proof.
+    intros Hk Hnt. induction from as [|x from IH]; intros f HI Hfrom.
+    - unfold add_terminals. cbn [fold_left].
+      split; auto. split; [intros k y Hy; exact Hy|]. split; auto. split; auto. split; auto.
+      intros x [].
+    - rewrite add_terminals_cons. destruct (is_tm x) eqn:Ex.
+      + apply is_tm_true in Ex. destruct Ex as [a ->].
+        destruct (Hfrom a) as [HaU HaP]. { left; auto. }
+        assert (HI1 : INV (fs_add f left (Tm a))).
+        { apply INV_add; auto.
+          - right. exists a. auto.
+          - intros i Ei. exfalso. apply (Hnt i); auto. }
+        destruct (prog_add_any f left (Tm a) (inv_sorted f HI)) as (A1 & A2 & A3 & A4).
+        destruct (IH (fs_add f left (Tm a)) HI1) as (B0 & B1 & B2 & B3 & B4 & B5).
+        { intros a' Ha'. apply Hfrom. right; auto. }
+        split; auto. split; [|split; [|split; [|split]]].
+        * intros k y Hy. apply B1, A1, Hy.
+        * lia.
+        * lia.
+        * intros HL k. rewrite B4 by lia. apply A4. lia.
+        * intros y [<-|Hy] Ey.
+          -- apply B1. rewrite fs_get_add_same. apply In_sinsert; auto.
+          -- apply B5; auto.
+      + destruct (IH f HI) as (B0 & B1 & B2 & B3 & B4 & B5).
+        { intros a' Ha'. apply Hfrom. right; auto. }
+        split; auto. split; [|split; [|split; [|split]]]; auto.
+        intros y [<-|Hy] Ey; [congruence|]. apply B5; auto.
+  Qed.
+
+  Definition Kf (f : fsets) : Prop := forall i, In (Tm i) U -> In (Tm i) (fs_get f (Tm i)).
+
+  Lemma phase2_syms_spec left alts :
+    In (left, alts) rs ->
+    forall rest pre f ch f' ch' all,
+      In (pre ++ rest) alts -> (forall y, In y pre -> Derives g y []) -> INV f -> Kf f ->
+      phase2_syms left f ch rest = (f', ch', all) ->
+      INV f' /\ prog f ch f' ch' /\
+      (all = true -> forall y, In y rest -> Derives g y []) /\
+      (ch' = false -> (all = true -> In Eps (fs_get f' left)) -> closed_from (fs_get f') left rest).
+  Proof.
+    intros Hr.
+    assert (Hkl : keyok left). { right; left. apply (in_map fst) in Hr. exact Hr. }
+    assert (Hnt : forall i, left <> Tm i). { intros i. eapply left_not_tm; eauto. }
+    induction rest as [|s rest IH]; intros pre f ch f' ch' all Halt Hpre HI HK Heq.
+    - cbn [phase2_syms] in Heq. inversion Heq; subst. split; auto. split; [apply prog_refl|].
+      split.
+      + intros _ y [].
+      + intros _ H. cbn [closed_from]. auto.
+    - cbn [phase2_syms] in Heq.
+      assert (HsU : In s U). { apply In_allsyms. exists left, alts, (pre ++ s :: rest). repeat split; auto. apply in_or_app; right; left; auto. }
+      set (f1 := fs_touch f s) in *.
+      assert (HI1 : INV f1).
+      { apply INV_touch; auto.
+        - right; right; auto.
+        - intros i Ei. subst s. eapply fs_get_In_key. apply HK; auto. }
+      assert (Hp1 : prog f ch f1 ch) by (apply prog_touch, HI).
+      assert (Hfrom : forall a, In (Tm a) (fs_get f1 s) -> In (Tm a) U /\ P left a).
+      { intros a Ha. split.
+        - destruct (inv_mem f1 HI1 _ _ Ha) as [E|(a' & E & Ha')]; [discriminate|].
+          rewrite E. auto.
+        - eapply P_rule; eauto. eapply inv_tm; eauto. }
+      destruct (add_terminals_spec left (fs_get f1 s) Hkl Hnt f1 HI1 Hfrom)
+        as (HI2 & A1 & A2 & A3 & A4 & A5).
+      set (f2 := add_terminals f1 left (fs_get f1 s)) in *.
+      assert (Hbefore : fs_get f left = fs_get f1 left) by (unfold f1; rewrite fs_get_touch; auto).
+      rewrite Hbefore in Heq.
+      set (ch1 := if Nat.ltb (length (fs_get f1 left)) (length (fs_get f2 left)) then true else ch) in *.
+      assert (Hp2 : prog f1 ch f2 ch1).
+      { unfold ch1. repeat split; auto.
+        - lia.
+        - intros ->. destruct (Nat.ltb _ _); auto.
+        - destruct (Nat.ltb_spec (length (fs_get f1 left)) (length (fs_get f2 left))) as [HL|HL];
+            [discriminate|]. intros _. apply A4. lia.
+        - intros ->. destruct (Nat.ltb_spec (length (fs_get f1 left)) (length (fs_get f2 left))) as [HL|HL];
+            [|discriminate]. intros _. lia. }
+      assert (Hp02 : prog f ch f2 ch1) by (eapply prog_trans; eauto).
+      (* the closure fact for the head symbol, valid whenever nothing changed afterwards *)
+      assert (Hhead : forall F, (forall k, F k = fs_get f2 k) -> ch1 = false ->
+                                forall a, In (Tm a) (F s) -> In (Tm a) (F left)).
+      { intros F HF Hc a Ha. rewrite HF in *. 
+        destruct Hp2 as (_ & _ & _ & Heq2 & _). rewrite (Heq2 Hc) in Ha.
+        apply A5; auto. }
+      destruct (smem sym_ltb (fs_get f2 s) Eps) eqn:Es.
+      + apply smem_In in Es.
+        assert (Hds : Derives g s []) by (eapply inv_eps; eauto).
+        destruct (IH (pre ++ [s]) f2 ch1 f' ch' all) as (B0 & B1 & B2 & B3); auto.
+        { rewrite <- app_assoc. cbn [app]. exact Halt. }
+        { intros y Hy. apply in_app_or in Hy. destruct Hy as [Hy|[<-|[]]]; auto. }
+        { intros i Hi. destruct Hp02 as (Hincl & _). apply Hincl. apply HK; auto. }
+        split; auto. split; [eapply prog_trans; eauto|]. split.
+        * intros Hall y [<-|Hy]; auto.
+        * intros Hc Hall. cbn [closed_from].
+          destruct B1 as (_ & _ & Bm & Beq & _).
+          assert (Hc1 : ch1 = false). { destruct ch1; auto. specialize (Bm eq_refl). congruence. }
+          split.
+          -- apply Hhead; auto.
+          -- intros _. apply B3; auto.
+      + inversion Heq; subst f' ch' all. split; auto. split; auto. split; [discriminate|].
+        intros Hc _. cbn [closed_from]. split.
+        * apply Hhead; auto.
+        * intros He. apply smem_false in Es. contradiction.
+  Qed.
+
+  Definition I2 (st : fstate) : Prop := INV (fs_sets st) /\ MX (fs_max st) /\ K1 st.
+
+  Definition Post2A (left : sym) (st : fstate) (alt : alternative) : Prop :=
+    fs_changed st = false -> closed_from (fs_get (fs_sets st)) left alt.
+
+  Lemma Post2A_mono left st st' alt : progS st st' -> Post2A left st alt -> Post2A left st' alt.
+  Proof.
+    intros [(_ & _ & Hm & Heq & _) _] H Hc.
+    assert (Hc0 : fs_changed st = false).
+    { destruct (fs_changed st); auto. specialize (Hm eq_refl). congruence. }
+    eapply closed_from_ext; [|apply H; auto].
+    intros k. symmetry. apply Heq; auto.
+  Qed.
+
+  Lemma phase2_alt_spec left alts alt st :
+    In (left, alts) rs -> In alt alts -> I2 st ->
+    I2 (phase2_alt left st alt) /\ progS st (phase2_alt left st alt) /\
+    Post2A left (phase2_alt left st alt) alt.
+  Proof.
+    intros Hr Ha (HI & HM & HK). unfold phase2_alt.
+    destruct (phase2_syms left (fs_sets st) (fs_changed st) alt) as [[f ch] all] eqn:Heq.
+    destruct (phase2_syms_spec left alts Hr alt [] (fs_sets st) (fs_changed st) f ch all)
+      as (B0 & B1 & B2 & B3); auto.
+    { intros y []. }
+    { intros i Hi. apply HK; auto. }
+    assert (Hkl : keyok left). { right; left. apply (in_map fst) in Hr. exact Hr. }
+    destruct (all && negb (smem sym_ltb (fs_get f left) Eps)) eqn:Eb.
+    - apply andb_true_iff in Eb. destruct Eb as [-> Eb]. apply negb_true_iff, smem_false in Eb.
+      assert (Hps : progS st (mkFS (fs_add f left Eps) (fs_max st) true)).
+      { split; cbn [fs_sets fs_max fs_changed]; [|lia].
+        eapply prog_trans; [exact B1|]. apply prog_add_new; auto. apply B0. }
+      split; [|split; auto].
+      + split; [|split]; cbn [fs_sets fs_max]; auto.
+        * apply INV_add; auto.
+          -- left. split; auto. eapply derives_alt; eauto. apply derivesL_nil. auto.
+          -- intros i Ei. exfalso. eapply left_not_tm; eauto.
+        * eapply K1_mono; eauto.
+      + intros Hc. cbn [fs_changed] in Hc. discriminate.
+    - assert (Hps : progS st (mkFS f (fs_max st) ch)).
+      { split; cbn [fs_sets fs_max fs_changed]; auto. lia. }
+      split; [|split; auto].
+      + split; [|split]; cbn [fs_sets fs_max]; auto. eapply K1_mono; eauto.
+      + intros Hc. cbn [fs_changed fs_sets] in *. apply B3; auto.
+        intros ->. cbn [andb] in Eb. apply negb_false_iff in Eb. apply smem_In; auto.
+  Qed.
+
+  Definition Post2R (st : fstate) (rule : sym * list alternative) : Prop :=
+    forall alt, In alt (snd rule) -> Post2A (fst rule) st alt.
+
+  Lemma p2_rule_spec st rule :
+    In rule rs -> I2 st -> I2 (p2_rule st rule) /\ progS st (p2_rule st rule) /\ Post2R (p2_rule st rule) rule.
+  Proof.
+    intros Hr (HI & HM & HK). destruct rule as [left alts]. unfold p2_rule, Post2R. cbn [fst snd].
+    set (st0 := mkFS (fs_touch (fs_sets st) left) (fs_max st) (fs_changed st)).
+    assert (Hp0 : progS st st0).
+    { split; cbn [st0 fs_sets fs_max fs_changed]; [|lia]. apply prog_touch, HI. }
+    assert (HI0 : I2 st0).
+    { split; [|split]; cbn [st0 fs_sets fs_max]; auto.
+      - apply INV_touch; auto.
+        + right; left. apply (in_map fst) in Hr. exact Hr.
+        + intros i Ei. exfalso. eapply left_not_tm; eauto.
+      - eapply K1_mono; eauto. }
+    destruct (fold_spec (phase2_alt left) I2 (fun alt => In alt alts) (Post2A left)) with (l := alts) (st := st0)
+      as (A & B & C); auto.
+    - intros s s' a Hp H. eapply Post2A_mono; eauto.
+    - intros s a Ha Hs. eapply phase2_alt_spec; eauto.
+    - split; auto. split; auto. eapply progS_trans; eauto.
+  Qed.
+
+  Definition closed (F : sym -> list sym) : Prop :=
+    forall left alts alt, In (left, alts) rs -> In alt alts -> closed_from F left alt.
+
+  Lemma first_round_spec st :
+    I1 st ->
+    I2 (first_round rs st) /\ progS st (first_round rs st) /\
+    (fs_changed (first_round rs st) = false -> closed (fs_get (fs_sets (first_round rs st)))).
+  Proof.
+    intros HI. rewrite first_round_eq.
+    destruct (p1_all_spec st HI) as ([A1 A1'] & A2 & A3).
+    set (st1 := fold_left p1_rule rs st) in *.
+    destruct (fold_spec p2_rule I2 (fun r => In r rs) Post2R) with (l := rs) (st := st1)
+      as (B1 & B2 & B3); auto.
+    - intros s s' a Hp H alt Halt. eapply Post2A_mono; [exact Hp|]. apply H; auto.
+    - intros s a Ha Hs. apply p2_rule_spec; auto.
+    - split; [|split]; auto.
+    - split; auto. split; [eapply progS_trans; eauto|].
+      intros Hc left alts alt H1 H2. apply (B3 (left, alts) H1 alt H2 Hc).
+  Qed.
+
+  (* ---------------------------------------------------------------------------------------------- *)
+  (* the loop                                                                                        *)
+  (* ---------------------------------------------------------------------------------------------- *)
+  Lemma I2_I1 st m ch : I2 st -> I1 (mkFS (fs_sets st) (fs_max st) ch).
+  Proof. intros (A & B & _). split; auto. Qed.
+
+  Lemma first_loop_spec fuel :
+    forall st st', I1 st -> first_loop fuel rs st = Ok st' ->
+                   I2 st' /\ closed (fs_get (fs_sets st')).
+  Proof.
+    induction fuel as [|fuel IH]; intros st st' HI; cbn [first_loop]; [discriminate|].
+    destruct (first_round_spec (mkFS (fs_sets st) (fs_max st) false)) as (A & B & C).
+    { destruct HI; split; auto. }
+    destruct (fs_changed (first_round rs (mkFS (fs_sets st) (fs_max st) false))) eqn:E.
+    - intros H. apply IH in H; auto. destruct A as (A1 & A2 & _). split; auto.
+    - intros H. inversion H; subst st'. auto.
+  Qed.
+
+  Lemma first_loop_term fuel :
+    forall st, I1 st -> (Bnd < M (fs_sets st) + fuel)%nat -> exists st', first_loop fuel rs st = Ok st'.
+  Proof.
+    induction fuel as [|fuel IH]; intros st HI HB.
+    - destruct HI as [HI _]. apply INV_M_bound in HI. lia.
+    - cbn [first_loop].
+      destruct (first_round_spec (mkFS (fs_sets st) (fs_max st) false)) as (A & B & C).
+      { destruct HI; split; auto. }
+      destruct (fs_changed (first_round rs (mkFS (fs_sets st) (fs_max st) false))) eqn:E.
+      + apply IH.
+        * destruct A as (A1 & A2 & _). split; auto.
+        * destruct B as [(_ & _ & _ & _ & Hlt) _]. cbn [fs_sets fs_changed] in Hlt.
+          specialize (Hlt eq_refl E). lia.
+      + eexists; eauto.
+  Qed.
+
+  Lemma fuel_enough : (Bnd < count_syms rs * count_syms rs + 2)%nat.
+  Proof.
+    pose proof (count_syms_ge rs) as H. unfold Bnd.
+    assert ((1 + length rs + length U) * (1 + length U) <= count_syms rs * count_syms rs)%nat.
+    { apply Nat.mul_le_mono; lia. }
+    lia.
+  Qed.
+
+  (* ---------------------------------------------------------------------------------------------- *)
+  (* completeness from closedness                                                                    *)
+  (* ---------------------------------------------------------------------------------------------- *)
+  Lemma closed_complete F :
+    closed F -> (forall i, In (Tm i) U -> In (Tm i) (F (Tm i))) ->
+    (forall X w, Derives g X w -> (forall i, X = Tm i -> In X U) ->
+                 (w = [] -> In Eps (F X)) /\ (forall a w', w = a :: w' -> In (Tm a) (F X))) /\
+    (forall rhs w, DerivesL g rhs w -> forall left, (forall y, In y rhs -> In y U) ->
+                 closed_from F left rhs ->
+                 (w = [] -> In Eps (F left)) /\ (forall a w', w = a :: w' -> In (Tm a) (F left))).
+  Proof.
+    intros HC HK.
+    apply (Derives_DerivesL_mut g
+      (fun X w => (forall i, X = Tm i -> In X U) ->
+                 (w = [] -> In Eps (F X)) /\ (forall a w', w = a :: w' -> In (Tm a) (F X)))
+      (fun rhs w => forall left, (forall y, In y rhs -> In y U) ->
+                 closed_from F left rhs ->
+                 (w = [] -> In Eps (F left)) /\ (forall a w', w = a :: w' -> In (Tm a) (F left)))).
+    - intros i HU. split; [discriminate|]. intros a w' E. inversion E; subst. apply HK. apply (HU a); auto.
+    - intros n k rhs w Hnth HD IH _.
+      apply rs_get_nth in Hnth. destruct Hnth as [H1 H2].
+      apply IH.
+      + intros y Hy. apply In_allsyms. eauto 6.
+      + eapply HC; eauto.
+    - intros left _ Hcl. cbn [closed_from] in Hcl. split; auto. discriminate.
+    - intros X rest w1 w2 HX IHX Hrest IHrest left HU Hcl.
+      cbn [closed_from] in Hcl. destruct Hcl as [CA CB].
+      destruct IHX as [IX1 IX2]. { intros i _. apply HU; left; auto. }
+      destruct w1 as [|a w1].
+      + cbn [app]. apply IHrest.
+        * intros y Hy. apply HU; right; auto.
+        * apply CB. apply IX1; auto.
+      + split; [discriminate|]. intros a' w' E. cbn [app] in E. inversion E; subst.
+        apply CA. eapply IX2; eauto.
+  Qed.
+End Fix.
